@@ -52,9 +52,8 @@ def fixedKeep (lobe : Nat) (wt : WinType) (validOnly : Bool) (len : Nat) (start 
 /-- All kept windows of a sequence of length `len`, in order of `k`. No window with `k > len` is
 ever kept (`fixedKeep_bound` in the lemmas), so the range is not a restriction. -/
 def fixedRow (lobe : Nat) (wt : WinType) (validOnly : Bool) (len : Nat) : List (Int × Int) :=
-  (List.range (len + 1)).filterMap fun k =>
-    let s := fixedStart lobe wt validOnly k
-    if fixedKeep lobe wt validOnly len s then some (s, s + fixedSize lobe wt) else none
+  ((List.range (len + 1)).filter fun k => fixedKeep lobe wt validOnly len (fixedStart lobe wt validOnly k)).map
+    fun k => (fixedStart lobe wt validOnly k, fixedStart lobe wt validOnly k + fixedSize lobe wt)
 
 /-- `lens[n]` is the length of sequence `n`. -/
 def fixed (lobe : Nat) (wt : WinType) (validOnly : Bool) (lens : List Nat) : List Win :=
@@ -101,19 +100,21 @@ def refOther (toks : List Tok) (inLen : Nat) : Int :=
   | none => 0
   | some tk => tk.2.2
 
-/-- One token's window, or `none` when it is discarded: missing boundary (negative start or
-end); empty or inverted after widening; valid-only and not inside `[0, other]`; not valid-only
-and not overlapping `[0, other)`. -/
-def refWindow (lobe : Nat) (wt : WinType) (validOnly : Bool) (other : Int) (tk : Tok) :
-    Option (Int × Int) :=
-  let s := tk.2.1
-  let e := tk.2.2
-  let s' := if wt.doLeft then s - lobe else s
-  let e' := if wt.doRight then e + lobe else e
+/-- Keep or discard a segment `[s, e)` widened to `[s', e')`: discarded when a boundary is missing
+(negative start or end); when it is empty or inverted after widening; when valid-only and not
+inside `[0, other]`; when not valid-only and not overlapping `[0, other)`. -/
+def refDecide (validOnly : Bool) (other s e s' e' : Int) : Option (Int × Int) :=
   if s < 0 ∨ e < 0 then none
   else if e' ≤ s' then none
   else if validOnly then (if s' < 0 ∨ other < e' then none else some (s', e'))
   else (if e' ≤ 0 ∨ other ≤ s' then none else some (s', e'))
+
+/-- One token's window: the start moves `lobe` frames left for symmetric / causal windows, the end
+`lobe` frames right for symmetric / future windows. -/
+def refWindow (lobe : Nat) (wt : WinType) (validOnly : Bool) (other : Int) (tk : Tok) :
+    Option (Int × Int) :=
+  refDecide validOnly other tk.2.1 tk.2.2
+    (if wt.doLeft then tk.2.1 - lobe else tk.2.1) (if wt.doRight then tk.2.2 + lobe else tk.2.2)
 
 /-- Only the first `inLen` tokens belong to the sequence. -/
 def refRow (lobe : Nat) (wt : WinType) (validOnly : Bool) (toks : List Tok) (inLen : Nat)
@@ -163,9 +164,6 @@ def tokensRow (partialOk retain : Bool) (toks : List Tok) (sl : Int × Int) (ref
 def tokens (partialOk retain : Bool) (refs : List (List Tok)) (slices : List (Int × Int))
     (refLens : Option (List Nat)) : List (List Tok) :=
   (List.range refs.length).map fun n =>
-    tokensRow partialOk retain (refs.getD n []) (slices.getD n (0, 0))
-      (match refLens with
-        | none => none
-        | some l => some (l.getD n 0))
+    tokensRow partialOk retain (refs.getD n []) (slices.getD n (0, 0)) (refLens.map fun l => l.getD n 0)
 
 end PdtVerif.SlicePolicy
